@@ -1,15 +1,18 @@
-"""C02 — decided by exhaustive replay of the bounded state graph of specs/Ctx.tla (see harness/ctxreplay.py)."""
-from .. import core, ctxreplay
+"""C02 — decided by (1) exhaustive replay of the bounded state graph of specs/Ctx.tla against real contexts
+(harness/ctxreplay.py) and (2) the race family of specs/Race.tla with the monitor specs/P_Race.tla (harness/race.py)."""
+from .. import core, ctxreplay, race
 
 PROP = "C02"
 
 
 def run(tier, seed):
-    return ctxreplay.ctx_check(PROP, tier, seed)
+    rep = ctxreplay.ctx_check(PROP, tier, seed)
+    return race.race_check(PROP, tier, seed, rep)
 
 
 def replay(scenario):
-    # the full comparison needs the graph: re-run the recorded path for result/value differences, else re-run the graph walk
+    if scenario.get("kind") == "race":
+        return race.replay_case(PROP, scenario)
     out = ctxreplay.ctx_replay_case(PROP, scenario)
     if out:
         what, obs, exp, got = out[0]
